@@ -303,7 +303,7 @@ def r2_5(cx):
             if ok:
                 inc = (v.b if is_param_field(v.a, 'current_chunk_size') else v.a).strip()
                 before = [p for p in pushes if fn.pos_dominates(p.pos, pos)]
-                if inc.is_const_int(1):
+                if inc.is_const_int(1) or (not inc.is_const_int() and int_or_const_len(prog, inc) == 1):
                     # the held-back byte: one push of [STUFF_SEQUENCE[0]] before the count moves by one
                     ok = any(_is_stuff0_push(prog, p) for p in before)
                     what = 'push_copy(&[STUFF_SEQUENCE[0]]); current_chunk_size += 1'
